@@ -3,7 +3,7 @@
   (it imports Rtp.Model.Packet, which that branch does not have).  After merging with the core packet
   model, move this file to lean/Rtp/Proofs/PacketizerBridge.lean; it was checked (lake build, axioms
   propext / Classical.choice / Quot.sound only, no sorry) against lean/Rtp/Model/Packet.lean of /verif
-  commit 5ac9db4 together with branch agent-pktz.
+  commit 5ac9db4 together with branch agent-pktz (and Rtp/Model/Ntp.lean, ExtCodecs.lean of /verif a82a23e).
 
   What it gives (for EVERY history of Packetize / SkipSamples / GeneratePadding / EnableAbsSendTime
   calls, every payloader, every clock — `Packetizer.run`):
@@ -17,10 +17,15 @@
                      without extension keeps the receiver's unobservable stale ExtensionProfile) —
                      the `roundtrip` flag of `PktObs`, proved instead of modelled.
 
+    toNtpTime_eq / absSendTimeBytes_eq : the packetizer model's clock conversion and element value are
+                     the shared Ntp.toNtpTime / ExtCodecs.absSendMarshal (by rfl).
+
   Helper lemmas that probably belong in a shared file once the core proofs exist: writeAt_mid,
   writeAt_nil, rep_add, rd16_be16, rd32_be32, b1_decode, elem_decode.
 -/
 import Rtp.Model.Packet
+import Rtp.Model.Ntp
+import Rtp.Model.ExtCodecs
 import Rtp.Proofs.Packetizer
 import Rtp.Go.Bits
 namespace Rtp.Proofs.PacketizerBridge
@@ -477,5 +482,14 @@ theorem run_roundtrip (cfg p : Packetizer) (hc : SameCfg cfg p) (hv : AbsValid p
         exact mkPads_roundtrip p hpt' _ _ q hq
       | enableAbs id => simp [Packetizer.step, Rtp.Pred.C06.pktsOf] at hq
     · exact ih _ (step_sameCfg cfg p hc op) (step_absValid p hv op hops.1) hops.2 q hq
+
+/-! ### the abs-send-time element is the shared NTP / extension-codec model's -/
+
+/-- the packetizer model's clock conversion is `Ntp.toNtpTime` on `uint64(t.UnixNano())` -/
+theorem toNtpTime_eq (now : Int64) : Packetizer.toNtpTime now = Ntp.toNtpTime now.toUInt64 := rfl
+
+/-- the element value is `NewAbsSendTimeExtension(t).Marshal()` of the shared models -/
+theorem absSendTimeBytes_eq (now : Int64) :
+    ExtCodecs.absSendMarshal { ts := Ntp.newAbsSendTime now.toUInt64 } = .ok (absSendTimeBytes now) := rfl
 
 end Rtp.Proofs.PacketizerBridge
